@@ -15,7 +15,9 @@ pub struct History { pub initial: Initial, pub gens: Vec<(String, String)>, pub 
     /// before generation #k (1-based) one generation is attempted with a file-size limit equal to the current size: it must fail and lose nothing
     #[serde(default)] pub quota_before: Option<u8>,
     /// KESTREL_NEW_PASSWORD (used only by change-pass) is set to a stale value during every generation
-    #[serde(default)] pub stale_new_password: bool }
+    #[serde(default)] pub stale_new_password: bool,
+    /// keys.txt is a symbolic link to the real file (dotfile managers do that)
+    #[serde(default)] pub via_symlink: bool }
 
 fn initial_text(i: &Initial, seed: u64) -> Option<String> {
     match i {
@@ -45,7 +47,8 @@ pub fn check(h: &History) -> CheckResult {
     let sb = Sandbox::new();
     let f = sb.path("keys.txt");
     let init = initial_text(&h.initial, h.seed);
-    if let Some(t) = &init { std::fs::write(&f, t).map_err(|e| e.to_string())?; }
+    if h.via_symlink && init.is_some() { let real = sb.path("real-keyring.txt"); std::fs::write(&real, init.as_ref().unwrap()).map_err(|e| e.to_string())?; std::os::unix::fs::symlink("real-keyring.txt", &f).map_err(|e| e.to_string())?; }
+    else if let Some(t) = &init { std::fs::write(&f, t).map_err(|e| e.to_string())?; }
     let mut prev: Vec<u8> = init.clone().unwrap_or_default().into_bytes();
     let mut made: Vec<(String, String)> = Vec::new();
     for (raw_name, pw) in &h.gens {
@@ -109,7 +112,7 @@ pub fn check(h: &History) -> CheckResult {
 
 pub fn strat() -> impl Strategy<Value = History> {
     let initial = prop_oneof![4 => Just(Initial::Absent), 2 => Just(Initial::Empty), 8 => (1usize..4, any::<bool>(), any::<bool>(), any::<bool>()).prop_map(|(entries, trailing_newline, comments, with_private)| Initial::Keyring { entries, trailing_newline, comments, with_private }), 1 => prop_oneof![Just(70usize), Just(1100), Just(4200)].prop_map(|kib| Initial::Huge { kib })];
-    (initial, proptest::collection::vec((super::c17::name_strategy(), crate::gen::env_password_strategy()), 1..5), any::<u64>(), prop::bool::weighted(0.35), proptest::option::weighted(0.3, 1u8..4), any::<bool>()).prop_map(|(initial, gens, seed, use_keys, quota_before, stale_new_password)| History { initial, gens, seed, use_keys, quota_before, stale_new_password })
+    (initial, proptest::collection::vec((super::c17::name_strategy(), crate::gen::env_password_strategy()), 1..5), any::<u64>(), prop::bool::weighted(0.35), proptest::option::weighted(0.3, 1u8..4), any::<bool>(), prop::bool::weighted(0.25)).prop_map(|(initial, gens, seed, use_keys, quota_before, stale_new_password, via_symlink)| History { initial, gens, seed, use_keys, quota_before: if via_symlink { None } else { quota_before }, stale_new_password, via_symlink })
 }
 
 pub fn run(ctx: &Ctx) {
@@ -117,8 +120,9 @@ pub fn run(ctx: &Ctx) {
     ctx.assume("Linux; no terminal (the name is supplied on stdin, the password through KESTREL_PASSWORD)");
     ctx.shrink_iters.store(40, std::sync::atomic::Ordering::Relaxed);
     ctx.sse_vec("keygen_fixed_histories", "a keyring above 1 MiB; a generation that fails for lack of space between two successful ones; a stale KESTREL_NEW_PASSWORD in the environment", vec![
-        History { initial: Initial::Huge { kib: 1100 }, gens: vec![("newest".into(), "pw".into())], seed: 1, use_keys: false, quota_before: None, stale_new_password: false },
-        History { initial: Initial::Keyring { entries: 2, trailing_newline: true, comments: true, with_private: true }, gens: vec![("k1".into(), "p1".into()), ("k2".into(), "p2".into())], seed: 2, use_keys: true, quota_before: Some(2), stale_new_password: true },
-        History { initial: Initial::Absent, gens: vec![("k1".into(), "".into()), ("k2".into(), "p2".into())], seed: 3, use_keys: false, quota_before: Some(2), stale_new_password: true }], check);
+        History { initial: Initial::Huge { kib: 1100 }, gens: vec![("newest".into(), "pw".into())], seed: 1, use_keys: false, quota_before: None, stale_new_password: false, via_symlink: false },
+        History { initial: Initial::Keyring { entries: 2, trailing_newline: true, comments: true, with_private: true }, gens: vec![("k1".into(), "p1".into()), ("k2".into(), "p2".into())], seed: 2, use_keys: true, quota_before: Some(2), stale_new_password: true, via_symlink: false },
+        History { initial: Initial::Absent, gens: vec![("k1".into(), "".into()), ("k2".into(), "p2".into())], seed: 3, use_keys: false, quota_before: Some(2), stale_new_password: true, via_symlink: false },
+        History { initial: Initial::Keyring { entries: 2, trailing_newline: true, comments: false, with_private: false }, gens: vec![("k1".into(), "p1".into()), ("k2".into(), "p2".into())], seed: 4, use_keys: true, quota_before: None, stale_new_password: false, via_symlink: true }], check);
     ctx.pbt("keygen_histories", ctx.n(160, 2_500), strat, check);
 }
